@@ -309,8 +309,15 @@ func (r *RPCExecuteProgramResponse) DecodeFrom(d *types.Decoder) {
 	}
 	(*types.V1Currency)(&r.TotalCost).DecodeFrom(d)
 	(*types.V1Currency)(&r.FailureRefund).DecodeFrom(d)
-	r.Output = make([]byte, r.OutputLength)
-	d.Read(r.Output)
+	// read the output in bounded chunks, so that a bogus OutputLength fails at the
+	// end of the input instead of forcing a huge allocation up front
+	r.Output = nil
+	for rem := r.OutputLength; rem > 0 && d.Err() == nil; {
+		chunk := make([]byte, min(rem, 1<<16))
+		d.Read(chunk)
+		r.Output = append(r.Output, chunk...)
+		rem -= uint64(len(chunk))
+	}
 }
 
 // EncodeTo implements ProtocolObject.
